@@ -32,7 +32,7 @@ META = {
 }
 
 KINDS = ["plain", "include", "evalrst_include_opt", "html_img", "inv_wild", "subst", "subst_circ", "frontmatter_ext", "anchors", "footnotes",
-         "inv_stable", "inv_latest", "scheme_cls", "scheme_plain", "unknown_lexer", "footnote_num", "include_chain", "include_prev"]
+         "inv_stable", "inv_latest", "scheme_cls", "scheme_plain", "unknown_lexer", "footnote_num", "include_chain", "include_prev", "fm_footnotes"]
 # kinds also rendered through ONE parser object (create_md_parser + DocutilsRenderer) that is reused for the whole history
 API_KINDS = ["plain", "include", "html_img", "subst", "subst_circ", "frontmatter_ext", "anchors", "footnotes", "scheme_cls", "scheme_plain",
              "unknown_lexer", "footnote_num", "include_chain", "include_prev"]
@@ -55,6 +55,7 @@ def kind_text(k, name="doc"):
         "frontmatter_ext": '---\nmyst:\n  enable_extensions: [html_image, deflist]\n  heading_anchors: 1\n---\n\n<img src="a.png" alt="y">\n\nterm\n: def\n\n# H\n',
         "anchors": "# Anchor title\n\n## Sub\n\n## Sub\n\n[](#sub-1)\n",
         "footnotes": "x [^a] [^b]\n\n[^b]: two\n\n[^a]: one\n",
+        "fm_footnotes": "---\nmyst:\n  footnote_sort: false\n  footnote_transition: false\n---\n\nx [^b] [^a]\n\n[^a]: one\n\n[^b]: two\n\nend\n",
         "footnote_num": "x [^1] y [^n]\n\n[^1]: one\n\n[^n]: named\n",
         "unknown_lexer": "```nosuchlanguage\ncode\n```\n\n```nosuchlanguage\nmore\n```\n",     # one warning per block, in every document
         "include_prev": "```{include} docp.md\n```\n",            # docp.md: the path under which the reused parser object renders 'include' documents
@@ -144,12 +145,42 @@ def parse_api(md, d: Path, k, name="doc.md"):
     return {"sig": doc.pformat() + "\n" + re.sub(r"/[^\s\"']*?/(?=[\w.-]+\.md)", "", ws.getvalue())}
 
 
+def parse_settings(settings, d: Path, k):
+    """publish_doctree with the given (possibly already used) docutils settings OBJECT"""
+    import io
+    from docutils.core import publish_doctree
+    from myst_parser.parsers.docutils_ import Parser
+    ws = io.StringIO()
+    settings.warning_stream = ws
+    try:
+        doc = publish_doctree(kind_text(k), source_path=str(d / "doc.md"), parser=Parser(), settings=settings)
+    except Exception as e:  # noqa: BLE001
+        return {"sig": f"raised {type(e).__name__}: {e}"}
+    return {"sig": doc.pformat() + "\n" + ws.getvalue()}
+
+
+def settings_object(d: Path):
+    from docutils.frontend import get_default_settings
+    from myst_parser.parsers.docutils_ import Parser
+    st = get_default_settings(Parser)
+    for k, v in {"halt_level": 5, "report_level": 2, "doctitle_xform": False, "sectsubtitle_xform": False, **docutils_overrides(d)}.items():
+        setattr(st, k, v)
+    return st
+
+
+SETTINGS_KINDS = ["plain", "footnotes", "footnote_num", "fm_footnotes", "frontmatter_ext", "html_img", "anchors", "subst", "include"]
+
+
 def run_history(job):
     """executed in its own fresh process: parse the kinds of the history in order"""
     wd, hist = job
     d = Path(wd)
     shared = docutils_overrides(d)
     out = [parse_one(d, k, shared) for k in hist]
+    # the same history with ONE docutils settings object handed to every publish call
+    st = settings_object(d)
+    for k, o in zip(hist, out):
+        o["st"] = parse_settings(st, d, k) if k in SETTINGS_KINDS else None
     # the same history through one reused parser object (the documents have different paths)
     md = api_parser(d)
     for n, (k, o) in enumerate(zip(hist, out)):
@@ -270,6 +301,11 @@ def run(ctx):
                 diff = "\n".join(list(difflib.unified_diff(fresh[k]["sig"].splitlines(), got["sig"].splitlines(), "fresh process", f"after {h[:n]}", lineterm="", n=0))[:8])
                 ctx.violation(f"history {h}: the output of parse {n + 1} ({k}) depends on what was parsed before:\n{diff}", case)
                 break
+            if got.get("st") and got["st"]["sig"] != fresh[k]["st"]["sig"]:
+                import difflib
+                diff = "\n".join(list(difflib.unified_diff(fresh[k]["st"]["sig"].splitlines(), got["st"]["sig"].splitlines(), "new settings object", f"settings object used for {h[:n]}", lineterm="", n=0))[:8])
+                ctx.violation(f"history {h} published with one reused docutils settings object: the output of parse {n + 1} ({k}) depends on what was parsed before:\n{diff}", case)
+                break
             if got.get("api") and _api_sig(got["api"]["sig"]) != _api_sig(fresh[k]["api"]["sig"]):
                 import difflib
                 diff = "\n".join(list(difflib.unified_diff(fresh[k]["api"]["sig"].splitlines(), got["api"]["sig"].splitlines(), "new parser object", f"parser object used for {h[:n]}", lineterm="", n=0))[:8])
@@ -285,7 +321,7 @@ def run(ctx):
         if isinstance(o, dict):
             ctx.violation(f"history {h}: {o.get('error')}", {"leg": "V-history", "history": h})
             continue
-        traces.append({"id": t, "hist": h, "abs": [g["abs"] for g in o], "same": [g["sig"] == fresh[k]["sig"] and (not g.get("api") or _api_sig(g["api"]["sig"]) == _api_sig(fresh[k]["api"]["sig"]))
+        traces.append({"id": t, "hist": h, "abs": [g["abs"] for g in o], "same": [g["sig"] == fresh[k]["sig"] and (not g.get("st") or g["st"]["sig"] == fresh[k]["st"]["sig"]) and (not g.get("api") or _api_sig(g["api"]["sig"]) == _api_sig(fresh[k]["api"]["sig"]))
                                 for k, g in zip(h, o)]})
     tf = ctx.wd / "s_traces.ndjson"
     tlc.write_ndjson(tf, traces)
